@@ -347,7 +347,9 @@ class QueryScheduler:
         self._min_time_between_queries_millis = delay
         self._loop: Optional[asyncio.AbstractEventLoop] = None
         self._startup_queries_sent = 0
-        self._next_scheduled_for_alias: Dict[str, _ScheduledPTRQuery] = {}
+        # keyed by owner name and alias: an instance can be listed under its
+        # type and under subtypes, each of those pointers has its own schedule
+        self._next_scheduled_for_alias: Dict[Tuple[str, str], _ScheduledPTRQuery] = {}
         self._query_heap: list[_ScheduledPTRQuery] = []
         self._next_run: Optional[asyncio.TimerHandle] = None
         self._earliest_next_run_millis: float = 0.0
@@ -390,7 +392,7 @@ class QueryScheduler:
 
     def _schedule_ptr_query(self, scheduled_query: _ScheduledPTRQuery) -> None:
         """Schedule a query for a pointer."""
-        self._next_scheduled_for_alias[scheduled_query.alias] = scheduled_query
+        self._next_scheduled_for_alias[(scheduled_query.name.lower(), scheduled_query.alias)] = scheduled_query
         heappush(self._query_heap, scheduled_query)
         # The timer may be armed for a later deadline than this query,
         # bring it forward but keep the minimum time between queries
@@ -404,13 +406,13 @@ class QueryScheduler:
 
     def cancel_ptr_refresh(self, pointer: DNSPointer) -> None:
         """Cancel a query for a pointer."""
-        scheduled = self._next_scheduled_for_alias.pop(pointer.alias_key, None)
+        scheduled = self._next_scheduled_for_alias.pop((pointer.key, pointer.alias_key), None)
         if scheduled:
             scheduled.cancelled = True
 
     def reschedule_ptr_first_refresh(self, pointer: DNSPointer) -> None:
         """Reschedule a query for a pointer."""
-        current = self._next_scheduled_for_alias.get(pointer.alias_key)
+        current = self._next_scheduled_for_alias.get((pointer.key, pointer.alias_key))
         refresh_time_millis = pointer.get_expiration_time(_EXPIRE_REFRESH_TIME_PERCENT)
         if current is not None:
             # If the expire time is within self._min_time_between_queries_millis
@@ -426,7 +428,7 @@ class QueryScheduler:
                 current.expire_time_millis = pointer.get_expiration_time(100)
                 return
             current.cancelled = True
-            del self._next_scheduled_for_alias[pointer.alias_key]
+            del self._next_scheduled_for_alias[(pointer.key, pointer.alias_key)]
         expire_time_millis = pointer.get_expiration_time(100)
         self._schedule_ptr_refresh(pointer, expire_time_millis, refresh_time_millis)
 
@@ -505,7 +507,7 @@ class QueryScheduler:
                 break
             query = heappop(self._query_heap)
             ready_types.add(query.name)
-            del self._next_scheduled_for_alias[query.alias]
+            del self._next_scheduled_for_alias[(query.name.lower(), query.alias)]
             # If there is still more than 10% of the TTL remaining
             # schedule a query again to try to rescue the record
             # from expiring. If the record is refreshed before
